@@ -65,8 +65,16 @@ def order_text(spec, ind=0, rev=True):
     return "\n".join(out) + ("\n" if out else "")
 
 
+NEGW = {"huawei": ("undoable", "undo-x"), "cisco": ("notification", "node-id"), "arista": ("notification", "node-id"),
+        "juniper": ("deleted", "delete-x"), "routeros": ("removed", "remove-x")}
+
+
 def rulebooks(tier):
-    """-> list of (family, spec)"""
+    """-> list of (family, spec, vendors or None)"""
+    return [(r + (None,) if len(r) == 2 else r) for r in _rulebooks(tier)]
+
+
+def _rulebooks(tier):
     res = []
     shapes = lambda w: [w, w + " *", w + " ~"]
     # F1 one leaf rule
@@ -107,6 +115,21 @@ def rulebooks(tier):
     for (l1, l2, l3) in combos:
         res.append(("F7", [("a *", l1, []), ("b", l2, []), ("blk *", "", [("c ~", l3, [])]), ("~", "%global", [])]))
         res.append(("F7", [("c *", l3, []), ("blk *", l2, [("a *", l1, [])]), ("b ~", "", [])]))
+    # F10 a block row matched by two block rules (a specific one written before a generic one) whose children key one child
+    #     row differently (`ip address ~` below the first, `ip address *` below the second)
+    for l1 in CORE:
+        for l2 in CORE:
+            res.append(("F10", [("blk */1\\d*/", "", [("ip address ~", l1, [])]), ("blk *", "", [("ip address *", l2, []), ("mtu *", "", [])])]))
+    for bl in CORE:
+        res.append(("F10", [("interface */Vlanif\\d+/", bl, [("ip address ~", "", [])]),
+                            ("interface *", "", [("ip address *", "", []), ("mtu *", "", [])])]))
+        res.append(("F10", [("blk */1\\d*/", bl, [("ip address * *", "", [])]), ("blk *", "", [("ip address *", "", [])]), ("~", "%global", [])]))
+    # F11 rules whose first word merely begins with the vendor's negation word
+    for vendor, (w1, w2) in NEGW.items():
+        for lg in LOGICS:
+            for l2 in ("", "%logic=common.undo_redo"):
+                res.append(("F11", [(w1 + " *", lg, []), ("blk *", "", [(w2 + " *", l2, [])])], [vendor]))
+        res.append(("F11", [(w1 + " host * ~", "", []), (w2 + " *", "", [(w1 + " ~", "", [])])], [vendor]))
     # F8 three levels
     if tier == "thorough":
         for bl in CORE:
@@ -125,22 +148,34 @@ def rulebooks(tier):
 
 # ---------------------------------------------------------------------------------------------------------------------
 # config trees that instantiate a rulebook
+BLOCKW = ("blk", "sub", "interface", "undo-x", "node-id", "delete-x", "remove-x")
+POOL = ["1", "2", "3", "10", "12", "Vlanif1", "Vlanif2", "x"]
+
+
+def _values(tok, big):
+    if tok == "*":
+        return ["1", "2", "3"] if big else ["1", "2"]
+    import re
+    return [v for v in POOL if re.fullmatch(tok[2:-1], v)][:3 if big else 2]
+
+
 def rows_of(rule, big=False, blockvar=False):
     """candidate rows of one rule (the words of the rule with the wildcards filled in)"""
     t = rule.tokens
-    block = bool(rule.children) or t[0] in ("blk", "sub")
-    vals = ["1", "2", "3"] if big else ["1", "2"]
+    block = _is_blockish(rule)
+    wild = [w for w in t if devsim._is_wild(w)]
     if t == ["~"]:
         return ["x 1", "y 1", "x 2"] + (["y 2 3"] if big else [])
     if t[-1] == "~":
-        head = " ".join("1" if w == "*" else w for w in t[:-1])
+        head = " ".join(_values(w, big)[0] if devsim._is_wild(w) else w for w in t[:-1])
         return [head + " 1", head + " 1 2"] + ([head + " 2"] if big else [])
-    if "*" in t:
+    if wild:
         out = []
-        for v in vals:
-            base = " ".join(v if w == "*" else w for w in t)
+        vals = _values(wild[0], big)
+        for n, v in enumerate(vals):
+            base = " ".join((v if w == wild[0] else _values(w, big)[0]) if devsim._is_wild(w) else w for w in t)
             out.append(base)
-            if v == "1" and (not block or blockvar):
+            if n == 0 and (not block or blockvar):
                 out.append(base + " x")
                 if big and not block:
                     out.append(base + " y")
@@ -150,7 +185,7 @@ def rows_of(rule, big=False, blockvar=False):
 
 
 def _is_blockish(rule):
-    return bool(rule.children) or rule.tokens[0] in ("blk", "sub")
+    return bool(rule.children) or rule.tokens[0] in BLOCKW
 
 
 def level_choices(ctx, big, blockvar):
@@ -184,9 +219,9 @@ def all_levels(ctx, depth, maxrows, cap, big=False, blockvar=False, under_global
         blockish = _is_blockish(rule) or (devsim.is_global(rule) and rule.tokens == ["~"] and under_global < 1 and row == "x 1")
         if depth <= 1 or not blockish:
             return [[]]
-        k = rule.line
+        cctx = devsim.child_ctx(ctx, rule, row)
+        k = tuple(r.line for r in cctx.all())
         if k not in child_cache:
-            cctx = devsim.child_ctx(ctx, rule)
             ug = under_global + (1 if devsim.is_global(rule) else 0)
             child_cache[k] = all_levels(cctx, depth - 1, maxrows, cap, big, blockvar, ug) if cctx.all() else [[]]
         return child_cache[k]
@@ -228,7 +263,7 @@ def sample_level(rnd, ctx, depth, maxrows, big=False, blockvar=False, p=0.5, und
         ch = []
         blockish = _is_blockish(rule) or (devsim.is_global(rule) and rule.tokens == ["~"] and under_global < 1 and row == "x 1")
         if depth > 1 and blockish:
-            cctx = devsim.child_ctx(ctx, rule)
+            cctx = devsim.child_ctx(ctx, rule, row)
             if cctx.all():
                 ch = sample_level(rnd, cctx, depth - 1, maxrows, big, blockvar, p, under_global + (1 if devsim.is_global(rule) else 0))
         out.append([row, ch])
@@ -247,7 +282,7 @@ def mutate(rnd, ctx, tree, depth, maxrows, big=False, blockvar=False):
         if x < 0.25:
             continue
         if x < 0.6 and ch:
-            ch = mutate(rnd, devsim.child_ctx(ctx, rule), ch, depth - 1, maxrows, big, blockvar)
+            ch = mutate(rnd, devsim.child_ctx(ctx, rule, row), ch, depth - 1, maxrows, big, blockvar)
         out.append([row, ch])
         used.add(slot(row))
     for row, ch in fresh:
@@ -372,7 +407,7 @@ def _ordered_replaced(rbt, before, new, ctx=None, path=()):
         o = devsim.find_slot(before, ctx, rule, key)
         if devsim.flag(rule, "ordered") and o is not None and o != row:
             return True
-        if o is not None and _ordered_replaced(rbt, before[o], ch, devsim.child_ctx(ctx, rule), path + (row,)):
+        if o is not None and _ordered_replaced(rbt, before[o], ch, devsim.child_ctx(ctx, rule, row), path + (row,)):
             return True
     return False
 
@@ -525,7 +560,8 @@ def cases(tier, seed, part=0, nparts=1):
     b = _bounds(tier)
     i = 0
     mine = lambda idx: idx % nparts == part
-    for ri, (fam, spec) in enumerate(rulebooks(tier)):
+    for ri, (fam, spec, only) in enumerate(rulebooks(tier)):
+        VL = [v for v in VENDORS if only is None or v[0] in only]
         rbt = rb_text(spec)
         ctx = devsim.root_ctx(rbt)
         depth = 3 if fam == "F8" else 2
@@ -536,7 +572,7 @@ def cases(tier, seed, part=0, nparts=1):
         # every vendor for exhaustively explored small rulebooks in the thorough tier, a rotation otherwise
         allv = tier == "thorough" and exhaustive and npairs <= 700
         for j in range(npairs):
-            vs = VENDORS if allv else [VENDORS[(ri + j) % len(VENDORS)]]
+            vs = VL if allv else [VL[(ri + j) % len(VL)]]
             if not any(mine(i + x) for x in range(len(vs))):
                 i += len(vs)
                 continue
@@ -564,17 +600,17 @@ def cases(tier, seed, part=0, nparts=1):
                     chain = [rnd.choice(uni) if uni is not None else sample_level(rnd, ctx, depth, 3)]
                     for _ in range(k):
                         chain.append(mutate(rnd, ctx, chain[-1], depth, 3))
-                yield i, dict(vendor=VENDORS[(ri + j) % len(VENDORS)][0], rb=rbt, order=ords[j % 3], chain=chain, fam=fam)
+                yield i, dict(vendor=VL[(ri + j) % len(VL)][0], rb=rbt, order=ords[j % 3], chain=chain, fam=fam)
             i += 1
         # seeded random larger trees (thorough): <= 5 rows per level, three values, a replaced block row
-        for j in range(b["big"] if fam in ("F5", "F6", "F7", "F8") else 0):
+        for j in range(b["big"] if fam in ("F5", "F6", "F7", "F8", "F10") else 0):
             if mine(i):
                 rnd = gen_rb.rng(seed, "c01b", tier, ri, j)
                 bv = j % 4 == 0
                 chain = [sample_level(rnd, ctx, depth, 5, big=True, blockvar=bv, p=0.6)]
                 for _ in range(1 + j % 3):
                     chain.append(mutate(rnd, ctx, chain[-1], depth, 5, big=True, blockvar=bv))
-                yield i, dict(vendor=VENDORS[(ri + j) % len(VENDORS)][0], rb=rbt, order=ords[j % 3], chain=chain, fam=fam)
+                yield i, dict(vendor=VL[(ri + j) % len(VL)][0], rb=rbt, order=ords[j % 3], chain=chain, fam=fam)
             i += 1
     # a replaced block row, small (quick tier too)
     for ri, bl in enumerate(LOGICS):
